@@ -897,6 +897,13 @@ class Facts:
                     self.impl_items_by_adt[it['trait_item']].append((im.get('self_adt'), it['path']))
         self._callers = None
 
+    def ext_enum_variants(self, path):
+        """variant names (by index) of an enum of another crate that some body of this crate matches on"""
+        a = self.ext_adts.get(path)
+        if not a:
+            return None
+        return [v['name'] for v in sorted(a['variants'], key=lambda v: v['idx'])]
+
     # ---- lookup ------------------------------------------------------------
     def body(self, path):
         return self.bodies.get(path)
